@@ -17,6 +17,7 @@ CONSTANTS
   CopyP = {"kfoo"}
   PickleP = {"kfoo", "m"}
   ConvHows = {"to"}
+  HandleH = {"copyreg", "unitcopy"}
 INIT Init
 NEXT Next
 VIEW View
